@@ -87,7 +87,8 @@ def from_operator(op: OperatorTemplate, updates: dict, return_dict: dict, base: 
     """
 
     # collect operator attributes
-    new_dict = {'base': base, 'equations': op.equations, 'variables': op.variables}
+    # copy the variable definitions: the per-node updates belong to the dumped entry, not to the (shared) template
+    new_dict = {'base': base, 'equations': op.equations, 'variables': dict(op.variables)}
     new_dict['variables'].update(updates)
 
     # add operator definition to the return dictionary
